@@ -86,6 +86,16 @@ func EndBlocker(ctx sdk.Context, k keeper.Keeper) {
 			providers[i] = pd
 		}
 
+		// a context that was paused during its last batch and started again after that batch
+		// expired has nothing left to issue
+		if requestContext.State == types.RUNNING && requestContext.BatchCounter > 0 &&
+			(!requestContext.Repeated ||
+				(requestContext.RepeatedTotal >= 0 && int64(requestContext.BatchCounter) >= requestContext.RepeatedTotal)) {
+			k.CompleteServiceContext(ctx, *requestContext, requestContextID)
+			k.DeleteNewRequestBatch(ctx, requestContextID, ctx.BlockHeight())
+			return
+		}
+
 		if requestContext.State == types.RUNNING {
 			providers, totalPrices, rawDenom, err := k.FilterServiceProviders(
 				ctx,
